@@ -282,6 +282,9 @@ func dirmodel(r *core.Run, cfg dmConfig) {
 	// directory list
 	src.Begin("dirs")
 	n := 1 + src.Intn(4)
+	if !cfg.faults && src.Bool(1, 12) {
+		n = 0 // an empty directory list (C01): nothing may resolve, nothing may be reported
+	}
 	for i := 0; i < n; i++ {
 		if i > 0 && src.Bool(1, 6) {
 			d.dirs = append(d.dirs, d.dirs[src.Intn(len(d.dirs))]) // listed twice
